@@ -105,6 +105,13 @@ pub fn read_facts_and_rules(file_name: &str) -> Result<Vec<String>, String> {
 
             let mut line_number = 1;
             for line in lines {
+                // A read that fails is an error, not a line to skip: skipping it
+                // drops a line silently (invalid UTF-8), or never ends (a device
+                // that keeps failing, or a directory given as file name).
+                if let Err(err) = &line {
+                    let msg = format!("{}: {} (line {})", err, file_name, line_number);
+                    return Err(msg);
+                }
                 if let Ok(line) = line {
                     let line = strip_comments(&line);
                     if line.len() > 0 {
